@@ -12,6 +12,7 @@ CLAIMED = {
  'C06': ('title-refresh decision kernel: kind kept, destination kept, title of the note the link resolves to, for every link kind / position / url form / directory pair in the table', '3 C06'),
  'C07': ('outline laws with symbolic heading levels: order kept, emitted outline well nested, well-nested input keeps identical levels, '
          'blocks stay under the nearest preceding heading / same list item / quote', '3 C07'),
+ 'C08': ('rename through the real handle_rename at tree level: refused onto an existing note; old name deleted and new name created exactly once; exactly the linking notes and the new note are written; no link to the old name remains, every such link now points to the new name, all other links and all text kept', '3 C08'),
  'C09': ('extract / inline code actions at tree level: text conserved exactly once across the edited notes, fresh distinct names, one titled reference per extracted section, inlined note deleted and its links re-relativised, for every node x provider within the bounds', '3 C09'),
  'C10': ('list/section conversions at tree level: only the note is rewritten, every word and link kept in order, only the targeted list changes type', '3 C10'),
  'C12': ('handler -> liwe boundary for code actions: no panic edge reachable in action()/changes() for any node x provider, every offered action resolves', '3 C12'),
@@ -22,7 +23,6 @@ CLAIMED = {
 }
 NA = {
  'C02': 'property is about re-parsing emitted text: string rendering and pulldown-cmark are outside what either engine can execute symbolically (DESIGN 3 C02)',
- 'C08': 'observable is a WorkspaceEdit over Url strings built by string surgery; no solver-reachable kernel decides global link integrity (DESIGN 3 C08)',
  'C11': 'quantifies over thread interleavings of the router; neither Kani nor the MIR executor models threads / Arc strong counts (DESIGN 3 C11)',
  'C14': 'percent-encoded URL string surgery plus directory walking; no integer kernel, file system not encodable (DESIGN 3 C14)',
  'C15': 'the law lives in third-party byte-level path code (relative-path); the executor only has a model of it, which cannot be the deciding step (DESIGN 3 C15)',
